@@ -1118,6 +1118,9 @@ class ConstructProcessNoise(Contract):
 
 def construct_callees():
     c = dict(common.COMMON_APPLY)
+    from contracts import sklearn as _sk
+
+    c[_sk.NearestPD.key] = _sk.NearestPD()  # caller-side form only: a constructor that starts clamping the supplied process noise is visible
     c[RealJacobian.key] = RealJacobian()
     c[BasicBlockInit.key] = BasicBlockInit()
     c[ModelInitApply.key] = ModelInitApply()
